@@ -12,6 +12,7 @@
 #include "slu_ddefs.h"
 typedef double real_t; typedef double elem_t;
 #define PX d
+#define RMACH dmach
 #define IS_COMPLEX 0
 #define SLU_DT SLU_D
 #define SYMREAL(nm) slusym_real(nm)
@@ -19,6 +20,7 @@ typedef double real_t; typedef double elem_t;
 #include "slu_sdefs.h"
 typedef float real_t; typedef float elem_t;
 #define PX s
+#define RMACH smach
 #define IS_COMPLEX 0
 #define SLU_DT SLU_S
 #define SYMREAL(nm) ((float)slusym_real_f(nm))
@@ -26,6 +28,7 @@ typedef float real_t; typedef float elem_t;
 #include "slu_zdefs.h"
 typedef double real_t; typedef doublecomplex elem_t;
 #define PX z
+#define RMACH dmach
 #define IS_COMPLEX 1
 #define SLU_DT SLU_Z
 #define SYMREAL(nm) slusym_real(nm)
@@ -33,6 +36,7 @@ typedef double real_t; typedef doublecomplex elem_t;
 #include "slu_cdefs.h"
 typedef float real_t; typedef singlecomplex elem_t;
 #define PX c
+#define RMACH smach
 #define IS_COMPLEX 1
 #define SLU_DT SLU_C
 #define SYMREAL(nm) ((float)slusym_real_f(nm))
